@@ -49,9 +49,10 @@ def make_space(rng, n_trees=2, funcs=None, n_terminals=None, min_depth=1, max_de
     return sp
 
 
-def model_grow(drv, sp, draws, k):
+def model_grow(drv, sp, draws, k, cmd='t.grow'):
+    """`cmd='w.grow'` runs the method as the translator read it (GrowProg) instead of the hand-written model"""
     funcs = [T.OPS.index(f) for f in sp.functions]
-    out = drv.ask(f't.grow {common.enc_ints(funcs)} {sp.n_terminals} {k} {common.enc_ints(draws)}')
+    out = drv.ask(f'{cmd} {common.enc_ints(funcs)} {sp.n_terminals} {k} {common.enc_ints(draws)}')
     if out == 'error':
         return None
     tree, rest = out.split(' ')
